@@ -7,6 +7,7 @@ PROP = {
         {"name": "crc", "quick": 2000000, "thorough": 40000000, "maxlen": 300},
         {"name": "crc_long", "quick": 6000, "thorough": 100000, "maxlen": 40},
     ],
+    "uchar": ["crc"],
     "fuzz": [{"name": "crc", "secs": 60, "maxlen": 300}],
 }
 
